@@ -291,4 +291,36 @@ example : s3Stage exBehindAltDiff [] = true ∧ s3Stage exBehindNegAltConst [] =
     posLookBodyPc, wrapNegLook, negLookBodyPc, pushLiteral, pushLiteralAll, wellShaped, wellShapedAll,
     noBareEndZ, noBareEndZAll, progDelegOK, slotsBelow, slotsBelowAll]
 
+/-! ### Non-vacuity: a delegated piece that owns a capture group and contains an alternation, in front of a hard item
+
+`(a|b)(?=c)`, `(foo|bar)\b`: the prefix `(a|b)` is handed to the automata engine (`Delegate`, groups 1..2)
+and the continuation may come back. The alternation has no capture groups inside and its alternatives
+have one constant size, so all results of the piece are one state (`linearE`, `linear_same`). -/
+def exAltGroupLook : Expr :=
+  .concat [.group 0 (.alt [.literal ['a'] false, .literal ['b'] false]), .look (.literal ['c'] false) .ahead]
+def exAltGroupWordB : Expr :=
+  .concat [.group 0 (.alt [.concat [.literal ['f'] false, .literal ['o'] false, .literal ['o'] false],
+    .concat [.literal ['b'] false, .literal ['a'] false, .literal ['r'] false]]), .assertion .wordB]
+/-- `(?:x(a)|y(b))\2` (with an empty back-reference list, so that the alternation is not hard and is
+    delegated): the alternatives write different groups — outside, and it has to be. Telling the
+    alternatives apart by their first characters is not sound: `Ctx.ceq` is a free table, and for the
+    context with `ceq := fun _ _ _ => true` on the text `zww` the program
+    `… save:0, del:(?:x(a)|y(b)):1:3, backref:4, save:1, end` answers *no match* (the `Delegate` keeps the
+    first result, group 2 unset, the back-reference fails) while the reference search matches `[0,3)` with
+    group 2 = `[1,2)` through the second alternative. Every other hypothesis of `C01_vm_correct_s3`
+    holds for this tree; only the `linearAll` conjunct of `s3ok` rejects it. -/
+def exAltGroupsInside : Expr :=
+  .concat [.alt [.concat [.literal ['x'] false, .group 0 (.literal ['a'] false)],
+    .concat [.literal ['y'] false, .group 0 (.literal ['b'] false)]], .backref 2]
+
+set_option linter.unusedSimpArgs false in
+example : s3Stage exAltGroupLook [] = true ∧ s3Stage exAltGroupWordB [] = true ∧
+    s3Stage exAltGroupsInside [] = false := by
+  simp [s3Stage, build, exAltGroupLook, exAltGroupWordB, exAltGroupsInside, wrapTree, renumber, renumberList,
+    checkRefs, checkRefsList, isHard, isHardAny,
+    compile, visit, visitMiddle, visitAlt, concatSplit, groupCount, groupCountList, constSize, constSizeAll, minSize, minSizeMin,
+    minSizeSum, allMinSize, compileDelegates, compileDelegate, isLiteral, isLiteralAll, s3ok, s3okAll, s3okAlts, condFree, condFreeAll,
+    boundsEq, satMul, satAdd, sureReps, UNSET, Assertion.isHard, wrapPosLook, posLookBodyPc, pushLiteral, pushLiteralAll,
+    wellShaped, wellShapedAll, noBareEndZ, noBareEndZAll, progDelegOK, slotsBelow, slotsBelowAll, linearE, linearAll]
+
 end Fancy
